@@ -1,12 +1,589 @@
+import GrafeoModel.Model.Sparql
 import GrafeoModel.Driver.Proto
 
-/-! Stream `sparql` (stub: filled in by the owner of this stream). Stateless lines; if you need
-per-case state, keep it inside one op line. -/
+/-! Stream `sparql` (C13, query level). Stateless lines:
+
+    sparql sel <io> <triples> <scan> <n> <d>;<proj>;<order>;<off>;<lim>;<group>
+    sparql chk <io> <triples> <scan> <n> <same as sel>        (an unordered slice: size and containment)
+    sparql cnt <io> <triples> <scan> <n> <d>;<arg>;<alias>;<groupBy>;<order>;<off>;<lim>;<group>
+    sparql upd <io> <triples> <scan> <n> <update>
+
+`triples`: `s.p.o,…` (term codes, insertion order, duplicates allowed); `scan`: the distinct triples
+in the iteration order of the store's primary hash set (`-`: insertion order); `n`: number of
+variables `v0 … v(n-1)`; group syntax: `T[v0.c2.v1/…]`, `O{…}`, `U{…}{…}`, `G{…}`,
+`F(<expr>)`, expressions `e(a,b)` `n(a,b)` `l(a,b)` `b(v0)` `!(e)` `&(e,e)` `|(e,e)`.
+-/
 namespace Grafeo.DriverSparql
-open Grafeo.Proto
+open Grafeo.Proto Grafeo.Rdf Grafeo.Sparql
+
+/-! ### the term pool (must agree with `harness/src/sparql.rs`) -/
+
+def lexStr (c : Nat) : String :=
+  match c with
+  | 0 => "http://ex.org/a" | 1 => "http://ex.org/b" | 2 => "http://ex.org/p" | 3 => "x"
+  | 4 => "_:x" | 5 => "_:b1"
+  | 6 => "x" | 7 => "x" | 8 => "x" | 9 => "x" | 10 => "1" | 11 => "1" | 12 => ""
+  | 16 => "_:x" | 17 => "_:b1" | 18 => "http://ex.org/a" | 19 => "10" | 20 => "9" | 21 => "10" | 22 => "9"
+  | c => s!"http://ex.org/n{c}"
+
+def poolKind (c : Nat) : Kind :=
+  match c with
+  | 4 => .blank | 5 => .blank
+  | 6 => .plain | 7 => .lang | 8 => .lang | 9 => .other | 10 => .int 1 | 11 => .plain | 12 => .plain
+  | 16 => .plain | 17 => .plain | 18 => .plain | 19 => .plain | 20 => .plain | 21 => .int 10 | 22 => .int 9
+  | _ => .iri
+
+def poolSize : Nat := 23
+
+/-- identifier of a lexical form: the smallest code that is written that way -/
+def lexId (c : Nat) : Nat :=
+  ((List.range (min c poolSize)).find? fun d => lexStr d == lexStr c).getD c
+
+def poolNum (l : Nat) : Option Int :=
+  match l with
+  | 10 => some 1 | 19 => some 10 | 20 => some 9
+  | _ => none
+
+def poolLitNorm (c : Nat) : Nat :=
+  match c with
+  | 7 => 6 | 8 => 6 | 9 => 6
+  | c => c
+
+def poolConstVal (c : Nat) : FVal :=
+  match poolKind c with
+  | .int n => .int n
+  | _ => .str (lexId c)
+
+/-- `value_to_term` on the pool's lexical forms -/
+def poolBack (l : Nat) : Nat :=
+  match l with
+  | 3 => 6 | 4 => 16 | 5 => 17 | 10 => 10 | 12 => 12 | 19 => 21 | 20 => 22
+  | l => l                                   -- `http://…` → the IRI
+
+def poolEnv (vfix : Bool) : Env :=
+  { lex := lexId, emptyLex := 12, strLt := fun a b => lexStr a < lexStr b, num := poolNum,
+    litNorm := poolLitNorm, constVal := poolConstVal, back := poolBack, kind := poolKind, vfix := vfix }
+
+/-! ### parsing -/
+
+def parseTriple (s : String) : Option Triple :=
+  match s.splitOn "." with
+  | [a, b, c] => do pure ⟨← a.toNat?, ← b.toNat?, ← c.toNat?⟩
+  | _ => none
+
+def parseTriples (s : String) : Option (List Triple) :=
+  if s == "-" then some [] else (s.splitOn ",").mapM parseTriple
+
+def parsePT (s : String) : Option PT :=
+  match s.toList with
+  | 'v' :: r => (String.ofList r).toNat?.map .var
+  | 'c' :: r => (String.ofList r).toNat?.map .const
+  | _ => none
+
+def parseTP (s : String) : Option TP :=
+  match s.splitOn "." with
+  | [a, b, c] => do pure ⟨← parsePT a, ← parsePT b, ← parsePT c⟩
+  | _ => none
+
+def parseTPs (s : String) : Option (List TP) :=
+  if s == "" || s == "-" then some [] else (s.splitOn "/").mapM parseTP
+
+/-- characters up to (not including) the first `stop`; the rest starts behind it -/
+def takeUntil (stop : Char) : List Char → Option (List Char × List Char)
+  | [] => none
+  | c :: cs => if c == stop then some ([], cs) else (takeUntil stop cs).map fun p => (c :: p.1, p.2)
+
+partial def parseExpr : List Char → Option (Expr × List Char)
+  | 'e' :: '(' :: r => bin2 Expr.eq r
+  | 'n' :: '(' :: r => bin2 Expr.ne r
+  | 'l' :: '(' :: r => bin2 Expr.lt r
+  | 'b' :: '(' :: r => do
+    let (a, r1) ← takeUntil ')' r
+    match ← parsePT (String.ofList a) with
+    | .var v => pure (.bound v, r1)
+    | _ => none
+  | '!' :: '(' :: r => do
+    let (e, r1) ← parseExpr r
+    match r1 with
+    | ')' :: r2 => pure (.not e, r2)
+    | _ => none
+  | '&' :: '(' :: r => binE Expr.and r
+  | '|' :: '(' :: r => binE Expr.or r
+  | _ => none
+where
+  bin2 (f : PT → PT → Expr) (r : List Char) : Option (Expr × List Char) := do
+    let (a, r1) ← takeUntil ',' r
+    let (b, r2) ← takeUntil ')' r1
+    pure (f (← parsePT (String.ofList a)) (← parsePT (String.ofList b)), r2)
+  binE (f : Expr → Expr → Expr) (r : List Char) : Option (Expr × List Char) := do
+    let (a, r1) ← parseExpr r
+    match r1 with
+    | ',' :: r2 =>
+      let (b, r3) ← parseExpr r2
+      match r3 with
+      | ')' :: r4 => pure (f a b, r4)
+      | _ => none
+    | _ => none
+
+/-- the elements of a group up to its closing `}` (or the end of the input at top level) -/
+partial def parseGrp : List Char → Option (Grp × List Char)
+  | [] => some (.nil, [])
+  | '}' :: r => some (.nil, '}' :: r)
+  | 'T' :: '[' :: r => do
+    let (a, r1) ← takeUntil ']' r
+    let tps ← parseTPs (String.ofList a)
+    let (rest, r2) ← parseGrp r1
+    pure (.triples tps rest, r2)
+  | 'O' :: '{' :: r => do
+    let (g, r1) ← parseGrp r
+    match r1 with
+    | '}' :: r2 =>
+      let (rest, r3) ← parseGrp r2
+      pure (.optional g rest, r3)
+    | _ => none
+  | 'G' :: '{' :: r => do
+    let (g, r1) ← parseGrp r
+    match r1 with
+    | '}' :: r2 =>
+      let (rest, r3) ← parseGrp r2
+      pure (.group g rest, r3)
+    | _ => none
+  | 'U' :: '{' :: r => do
+    let (a, r1) ← parseGrp r
+    match r1 with
+    | '}' :: '{' :: r2 =>
+      let (b, r3) ← parseGrp r2
+      match r3 with
+      | '}' :: r4 =>
+        let (rest, r5) ← parseGrp r4
+        pure (.union a b rest, r5)
+      | _ => none
+    | _ => none
+  | 'F' :: '(' :: r => do
+    let (e, r1) ← parseExpr r
+    match r1 with
+    | ')' :: r2 =>
+      let (rest, r3) ← parseGrp r2
+      pure (.filter e rest, r3)
+    | _ => none
+  | _ => none
+
+def parseGroup (s : String) : Option Grp :=
+  match parseGrp s.toList with
+  | some (g, []) => some g
+  | _ => none
+
+def optNat (s : String) : Option (Option Nat) := if s == "-" then some none else s.toNat?.map some
+
+def parseNats (s : String) : Option (List Nat) :=
+  if s == "-" then some [] else (s.splitOn ",").mapM (·.toNat?)
+
+def parseOrder (s : String) : Option (List (Nat × Bool)) :=
+  if s == "-" then some [] else (s.splitOn ",").mapM fun k =>
+    match k.toList.reverse with
+    | 'a' :: r => (String.ofList r.reverse).toNat?.map fun v => (v, false)
+    | 'd' :: r => (String.ofList r.reverse).toNat?.map fun v => (v, true)
+    | _ => none
+
+def parseSelect (s : String) : Option Select :=
+  match s.splitOn ";" with
+  | [d, proj, ord, off, lim, g] => do
+    let pr ← if proj == "*" then some none else (parseNats proj).map some
+    pure { distinct := d == "1", proj := pr, order := ← parseOrder ord, offset := ← optNat off, limit := ← optNat lim,
+           where_ := ← parseGroup g }
+  | _ => none
+
+def parseCount (s : String) : Option Count :=
+  match s.splitOn ";" with
+  | [d, arg, al, gb, ord, off, lim, g] => do
+    let a ← if arg == "*" then some none else arg.toNat?.map some
+    pure { distinct := d == "1", arg := a, alias := ← al.toNat?, groupBy := ← parseNats gb, order := ← parseOrder ord,
+           offset := ← optNat off, limit := ← optNat lim, where_ := ← parseGroup g }
+  | _ => none
+
+def constTriple (tp : TP) : Option Triple :=
+  match tp.s, tp.p, tp.o with
+  | .const a, .const b, .const c => some ⟨a, b, c⟩
+  | _, _, _ => none
+
+def parseUpdate (s : String) : Option Update :=
+  match s.toList with
+  | 'I' :: 'D' :: '[' :: r => do
+    let (a, rest) ← takeUntil ']' r
+    if !rest.isEmpty then none
+    let tps ← parseTPs (String.ofList a)
+    pure (.insertData (← tps.mapM constTriple))
+  | 'D' :: 'D' :: '[' :: r => do
+    let (a, rest) ← takeUntil ']' r
+    if !rest.isEmpty then none
+    let tps ← parseTPs (String.ofList a)
+    pure (.deleteData (← tps.mapM constTriple))
+  | 'D' :: 'W' :: '[' :: r => do
+    let (a, rest) ← takeUntil ']' r
+    if !rest.isEmpty then none
+    pure (.deleteWhere (← parseTPs (String.ofList a)))
+  | 'M' :: 'O' :: '[' :: r => do
+    let (d, r1) ← takeUntil ']' r
+    match r1 with
+    | '[' :: r2 =>
+      let (i, r3) ← takeUntil ']' r2
+      match r3 with
+      | '{' :: r4 =>
+        let (g, r5) ← parseGrp r4
+        if r5 != ['}'] then none
+        pure (.modify (← parseTPs (String.ofList d)) (← parseTPs (String.ofList i)) g)
+      | _ => none
+    | _ => none
+  | _ => none
+
+/-! ### printing -/
+
+def insertStr (x : String) : List String → List String
+  | [] => [x]
+  | y :: ys => if y ≤ x then y :: insertStr x ys else x :: y :: ys
+
+def sortStrs (l : List String) : List String := l.foldr insertStr []
+
+def insertNat (x : Nat) : List Nat → List Nat
+  | [] => [x]
+  | y :: ys => if y ≤ x then y :: insertNat x ys else x :: y :: ys
+
+def sortNats (l : List Nat) : List Nat := l.foldr insertNat []
+
+def showCell : Cell → String
+  | .null => "~"
+  | .str l => toString l
+  | .int n => s!"#{n}"
+
+/-- one result row as `v=cell,…` sorted; a row whose width is not the header's: `!cell,cell` -/
+def showRow (cols : List Nat) (r : Row) : String :=
+  if r.length != cols.length then "!" ++ joinWith "," (r.map showCell)
+  else joinWith "," (sortStrs ((cols.zip r).filterMap fun vc =>
+    match vc.2 with
+    | .null => none
+    | c => some s!"{vc.1}={showCell c}"))
+
+def keyCells (cols : List Nat) (keys : List Nat) (r : Row) : List String :=
+  keys.map fun k => match (cols.zip r).find? (fun vc => vc.1 == k) with
+    | some (_, c) => showCell c
+    | none => "~"
+
+/-- adjacent rows with equal sort keys are put in a canonical order (the order of ties is not
+determined by ORDER BY) -/
+def canonTies : List (List String × String) → List String
+  | [] => []
+  | (k, s) :: rest =>
+    let run := rest.takeWhile (·.1 == k)
+    sortStrs (s :: run.map (·.2)) ++ canonTies (rest.drop run.length)
+termination_by l => l.length
+decreasing_by simp [List.length_drop]; omega
+
+def showTable (cols : List Nat) (rows : List Row) (ordered : List Nat) : String :=
+  let hdr := natList (sortNats cols)
+  let body :=
+    if ordered.isEmpty then sortStrs (rows.map (showRow cols))
+    else canonTies (rows.map fun r => (keyCells cols ordered r, showRow cols r))
+  hdr ++ "|" ++ joinWith ";" body
+
+def solRow (env : Env) (cols : List Nat) (μ : Sol) : Row :=
+  cols.map fun v => match μ.get v with
+    | some x => .str (env.lex x)
+    | none => .null
+
+def ptVars : PT → List Nat
+  | .var v => [v]
+  | .const _ => []
+
+def tpVars (tp : TP) : List Nat := ptVars tp.s ++ ptVars tp.p ++ ptVars tp.o
+
+/-- the variables in scope of a group (those of its triple patterns) -/
+def grpVars : Grp → List Nat
+  | .nil => []
+  | .triples tps rest => tps.flatMap tpVars ++ grpVars rest
+  | .optional g rest => grpVars g ++ grpVars rest
+  | .union a b rest => grpVars a ++ grpVars b ++ grpVars rest
+  | .group g rest => grpVars g ++ grpVars rest
+  | .filter _ rest => grpVars rest
+
+def showTriples (l : List Triple) : String :=
+  joinWith "," (sortStrs (l.map fun t => s!"{t.s}.{t.p}.{t.o}"))
+
+/-! ### the domain the row-wise model covers -/
+
+def ptConsts : PT → List Nat
+  | .var _ => []
+  | .const c => [c]
+
+def tpConsts (tp : TP) : List Nat := ptConsts tp.s ++ ptConsts tp.p ++ ptConsts tp.o
+
+def exprConsts : Expr → List Nat
+  | .eq a b | .ne a b | .lt a b => ptConsts a ++ ptConsts b
+  | .bound _ => []
+  | .not e => exprConsts e
+  | .and a b | .or a b => exprConsts a ++ exprConsts b
+
+def patConsts : Pat → List Nat
+  | .unit => []
+  | .scan tp => tpConsts tp
+  | .join a b | .union a b => patConsts a ++ patConsts b
+  | .leftJoin a b c => patConsts a ++ patConsts b ++ (match c with | some e => exprConsts e | none => [])
+  | .filter e a => exprConsts e ++ patConsts a
+
+/-- column count of every row the plan hands on -/
+def widthsOk (t : Table) : Bool := t.rows.all fun r => r.length == t.cols.length
+
+def patColsM : Pat → List Nat
+  | .unit => []
+  | .scan tp => tpCols tp
+  | .join a b | .leftJoin a b _ => patColsM a ++ (patColsM b).filter fun v => !(patColsM a).contains v
+  | .union a _ => patColsM a
+  | .filter _ a => patColsM a
+
+/-- unions of branches with a different number of columns are modelled at the top of the WHERE
+clause only (below a join the engine's column vectors get different lengths, which a row-wise
+model does not describe) -/
+def raggedOk (top : Bool) : Pat → Bool
+  | .unit => true
+  | .scan _ => true
+  | .join a b => raggedOk false a && raggedOk false b
+  | .leftJoin a b _ => raggedOk false a && raggedOk false b
+  | .filter _ a => raggedOk top a
+  | .union a b => (top || (patColsM a).length == (patColsM b).length) && raggedOk top a && raggedOk top b
+
+def topRagged : Pat → Bool
+  | .filter _ a => topRagged a
+  | .union a b => (patColsM a).length != (patColsM b).length || topRagged a || topRagged b
+  | _ => false
+
+def noBlankConst (cs : List Nat) : Bool := cs.all fun c => poolKind c != .blank
+
+/-! ### signatures: the first hypothesis of the partial theorems that the line violates -/
+
+def linearTP (tp : TP) : Bool := (tpCols tp).Nodup
+
+def patLinear : Pat → Bool
+  | .unit => true
+  | .scan tp => linearTP tp
+  | .join a b | .union a b | .leftJoin a b _ => patLinear a && patLinear b
+  | .filter _ a => patLinear a
+
+def patHasOptional : Pat → Bool
+  | .unit | .scan _ => false
+  | .leftJoin _ _ _ => true
+  | .join a b | .union a b => patHasOptional a || patHasOptional b
+  | .filter _ a => patHasOptional a
+
+/-- `leftJoin a b (some e)` written the way the translator writes it -/
+def normOpt : Pat → Pat
+  | .unit => .unit
+  | .scan tp => .scan tp
+  | .join a b => .join (normOpt a) (normOpt b)
+  | .union a b => .union (normOpt a) (normOpt b)
+  | .filter e a => .filter e (normOpt a)
+  | .leftJoin a b none => .leftJoin (normOpt a) (normOpt b) none
+  | .leftJoin a b (some e) => .leftJoin (normOpt a) (.filter e (normOpt b)) none
+
+def unionAligned : Pat → Bool
+  | .unit | .scan _ => true
+  | .join a b | .leftJoin a b _ => unionAligned a && unionAligned b
+  | .union a b => patColsM a == patColsM b && unionAligned a && unionAligned b
+  | .filter _ a => unionAligned a
+
+def exprHasBound : Expr → Bool
+  | .bound _ => true
+  | .not e => exprHasBound e
+  | .and a b | .or a b => exprHasBound a || exprHasBound b
+  | _ => false
+
+def patHasFilter : Pat → Bool
+  | .unit | .scan _ => false
+  | .filter _ _ => true
+  | .join a b | .union a b => patHasFilter a || patHasFilter b
+  | .leftJoin a b c => patHasFilter a || patHasFilter b || c.isSome
+
+def lexClash (env : Env) (terms : List Nat) : Bool :=
+  terms.any fun a => terms.any fun b => a != b && env.lex a == env.lex b
+
+def triplesTerms (G : List Triple) : List Nat := G.flatMap fun t => [t.s, t.p, t.o]
+
+/-- signature of a model ≠ spec deviation on a query line -/
+def querySig (st : Store) (full : List Triple) (G : List Triple) (g : Grp) (distinct ordered sliced : Bool)
+    (modelFix modelAsIs : String) : String :=
+  let code := transCode g
+  let std := transStd g
+  if modelAsIs == "err" then
+    (if (exec (poolEnv false) st full code).isNone then "sparql-empty-group-error" else "sparql-variable-not-a-column-error")
+  else if modelFix != modelAsIs then "sparql-null-lost-after-first"
+  else if !patLinear code then "sparql-repeated-variable-in-pattern"
+  else if (patConsts code).any (fun c => poolLitNorm c != c) then "sparql-literal-constant-loses-tag"
+  else if !unionAligned code then "sparql-union-columns-of-first-branch"
+  else if normOpt std != code then "sparql-optional-placement"
+  else if distinct then "sparql-distinct-ignored"
+  else if patHasOptional code then "sparql-unbound-handling"
+  else if lexClash (poolEnv false) (triplesTerms G ++ patConsts code) then "sparql-terms-compared-as-strings"
+  else if patHasFilter code then "sparql-filter-semantics"
+  else if ordered then "sparql-order-by"
+  else if sliced then "sparql-slice"
+  else "sparql-other"
+
+/-! ### the handler -/
+
+def dedupT (l : List Triple) : List Triple := l.foldl (fun acc t => if acc.contains t then acc else acc ++ [t]) []
+
+structure Ctx where
+  st : Store
+  full : List Triple
+  G : List Triple
+  n : Nat
+
+def mkCtx (io ts sc n : String) : Option Ctx := do
+  let triples ← parseTriples ts
+  let st := triples.foldl (fun st t => (st.insert t).1) (Store.new (io == "1"))
+  let full ← if sc == "-" then some st.triples else parseTriples sc
+  pure { st := st, full := full, G := st.triples, n := ← n.toNat? }
+
+def inDomainPat (p : Pat) : Bool := noBlankConst (patConsts p) && raggedOk true p
+
+/-- model output of a SELECT, for either null policy -/
+def runSelect (vfix : Bool) (c : Ctx) (q : Select) : String :=
+  match execSelect (poolEnv vfix) c.st c.full q with
+  | none => "err"
+  | some t => showTable t.cols t.rows (q.order.map (·.1))
+
+def specSelectStr (c : Ctx) (q : Select) : String :=
+  let env := poolEnv false
+  let cols := match q.proj with
+    | none => (grpVars q.where_).eraseDups
+    | some vs => vs
+  showTable cols ((specSelect env c.n c.G q).map (solRow env cols)) (q.order.map (·.1))
+
+def countRowCells (env : Env) (r : CountRow) : Row :=
+  (r.key.map fun k => match k with | some x => Cell.str (env.lex x) | none => .null) ++ [.int r.count]
+
+def runCount (vfix : Bool) (c : Ctx) (q : Count) : String :=
+  match execCount (poolEnv vfix) c.st c.full q with
+  | none => "err"
+  | some t => showTable t.cols t.rows (q.order.map (·.1))
+
+def specCountStr (c : Ctx) (q : Count) : String :=
+  let env := poolEnv false
+  showTable (q.groupBy ++ [q.alias]) ((specCount env c.n c.G q).map (countRowCells env)) (q.order.map (·.1))
+
+/-- is `small` contained in `big` as a multiset (both lists of printed rows)? -/
+def subBag (small big : List String) : Bool :=
+  (small.foldl (fun (acc : Option (List String)) x => acc.bind fun l => if l.contains x then some (l.erase x) else none) (some big)).isSome
+
+def bodyRows (s : String) : List String :=
+  match s.splitOn "|" with
+  | [_, b] => if b == "" then [] else b.splitOn ";"
+  | _ => []
+
+def chkStr (sliced full : String) : String :=
+  if sliced == "err" || full == "err" then "err"
+  else s!"n={(bodyRows sliced).length};sub={if subBag (bodyRows sliced) (bodyRows full) then 1 else 0}"
+
+def selectStarAfter (vfix : Bool) (st : Store) (full : List Triple) : String :=
+  let q : Select := { distinct := false, proj := none, order := [], offset := none, limit := none,
+                      where_ := .triples [⟨.var 0, .var 1, .var 2⟩] .nil }
+  match execSelect (poolEnv vfix) st full q with
+  | none => "err"
+  | some t => showTable t.cols t.rows []
+
+def specStarAfter (G : List Triple) : String :=
+  let env := poolEnv false
+  showTable [0, 1, 2] (G.map fun t => [Cell.str (env.lex t.s), .str (env.lex t.p), .str (env.lex t.o)]) []
+
+def runUpdate (vfix : Bool) (c : Ctx) (u : Update) : String :=
+  match execUpdate (poolEnv vfix) ⟨c.st, c.full⟩ u with
+  | none => "err:" ++ showTriples c.st.triples ++ "/" ++ selectStarAfter vfix c.st c.full
+  | some u' => showTriples u'.st.triples ++ "/" ++ selectStarAfter vfix u'.st u'.full
+
+def specUpdateStr (c : Ctx) (u : Update) : String :=
+  match specUpdate (poolEnv false) c.n c.G u with
+  | none => "err:" ++ showTriples c.G ++ "/" ++ specStarAfter c.G
+  | some G' => showTriples G' ++ "/" ++ specStarAfter G'
+
+def updatePlan : Update → Pat
+  | .deleteWhere tps => bgp tps
+  | .modify _ _ w => transCode w
+  | _ => .unit
+
+def updateConsts : Update → List Nat
+  | .insertData ts | .deleteData ts => triplesTerms ts
+  | .deleteWhere tps => tps.flatMap tpConsts
+  | .modify d i w => d.flatMap tpConsts ++ i.flatMap tpConsts ++ patConsts (transCode w)
+
+def backStable (env : Env) (terms : List Nat) : Bool := terms.all fun t => env.back (env.lex t) == t
+
+def updateSig (c : Ctx) (u : Update) (modelFix modelAsIs : String) : String :=
+  let env := poolEnv false
+  let plan := updatePlan u
+  if modelAsIs.startsWith "err" then "sparql-update-rejected"
+  else if modelFix != modelAsIs then "sparql-null-lost-after-first"
+  else if (updateConsts u).any (fun k => poolLitNorm k != k) then "sparql-literal-constant-loses-tag"
+  else match u with
+    | .insertData _ | .deleteData _ => "sparql-update-data"
+    | .deleteWhere tps =>
+      if tps.length > 1 then "sparql-delete-where-sequential"
+      else if !backStable env (triplesTerms c.G) then "sparql-update-term-from-string"
+      else "sparql-update-other"
+    | .modify _ _ w =>
+      if (match exec env c.st c.full plan with
+          | some t => t.updRows != t.rows
+          | none => false) then "sparql-update-ignores-selection"
+      else if !backStable env (triplesTerms c.G) then "sparql-update-term-from-string"
+      else if normOpt (transStd w) != plan || !patLinear plan || !unionAligned plan then "sparql-update-where-translation"
+      else if lexClash env (triplesTerms c.G ++ patConsts plan) then "sparql-terms-compared-as-strings"
+      else "sparql-update-other"
+
+def mk (m s sig : String) : Proto.Out := { model := m, spec := s, sig := if m == s then "-" else sig }
 
 def handle (args : List String) : Option Proto.Out :=
   match args with
+  | ["sel", io, ts, sc, n, qs] => do
+    let c ← mkCtx io ts sc n
+    let q ← parseSelect qs
+    if !inDomainPat (transCode q.where_) ||
+        (topRagged (transCode q.where_) && (q.proj.isSome || !q.order.isEmpty || q.offset.isSome || q.limit.isSome)) then
+      pure { model := "unmodelled", spec := "-" }
+    else
+      let m := runSelect false c q
+      let sliced := q.offset.isSome || q.limit.isSome
+      if sliced && q.order.isEmpty then pure { model := m, spec := "-" }     -- any such subset is right: see `chk`
+      else
+        let s := specSelectStr c q
+        pure (mk m s (querySig c.st c.full c.G q.where_ q.distinct (!q.order.isEmpty) sliced (runSelect true c q) m))
+  | ["chk", io, ts, sc, n, qs] => do
+    let c ← mkCtx io ts sc n
+    let q ← parseSelect qs
+    if !inDomainPat (transCode q.where_) || topRagged (transCode q.where_) then pure { model := "unmodelled", spec := "-" }
+    else
+      let whole := { q with offset := none, limit := none }
+      let m := chkStr (runSelect false c q) (runSelect false c whole)
+      let s := chkStr (specSelectStr c q) (specSelectStr c whole)
+      pure (mk m s (querySig c.st c.full c.G q.where_ q.distinct false true
+        (chkStr (runSelect true c q) (runSelect true c whole)) m))
+  | ["cnt", io, ts, sc, n, qs] => do
+    let c ← mkCtx io ts sc n
+    let q ← parseCount qs
+    if !inDomainPat (transCode q.where_) then pure { model := "unmodelled", spec := "-" }
+    else
+      let m := runCount false c q
+      let sliced := q.offset.isSome || q.limit.isSome
+      if sliced && q.order.isEmpty then pure { model := m, spec := "-" }
+      else
+        let s := specCountStr c q
+        let sig0 := querySig c.st c.full c.G q.where_ false (!q.order.isEmpty) sliced (runCount true c q) m
+        let sig := if sig0 == "sparql-order-by" || sig0 == "sparql-slice" then "sparql-count-column-type-lost"
+          else if sig0 == "sparql-other" || sig0 == "sparql-unbound-handling" then "sparql-count-counts-unbound" else sig0
+        pure (mk m s sig)
+  | ["upd", io, ts, sc, n, us] => do
+    let c ← mkCtx io ts sc n
+    let u ← parseUpdate us
+    if !noBlankConst (updateConsts u) || !raggedOk true (updatePlan u) then pure { model := "unmodelled", spec := "-" }
+    else
+      let m := runUpdate false c u
+      pure (mk m (specUpdateStr c u) (updateSig c u (runUpdate true c u) m))
   | _ => none
 
 end Grafeo.DriverSparql
